@@ -161,15 +161,22 @@ func vc15DrawEntry(t *rapid.T, label string) (e *querylog.Entry, k vc15Key, both
 func vc15Concurrent(tt *testing.T, part string, perWriterMax int) {
 	st := vstat.New("C15", part,
 		"rapid: 16 goroutines x 1-N generated entries (names and rule texts needing JSON escaping, line feeds inside rule texts, long rules, optional client address) written through one querylog.FileSystem after a start barrier; non-trivial = at least two writers were inside Write at the same time (measured); distinct by the multiset of written keys",
-		"overlap>=2", "both-stages-result", "logged-name-of-mixed-case-question", "rule-with-linefeed", "long-line>4096", "with-ip", "without-ip")
+		"overlap>=2", "both-stages-result", "logged-name-of-mixed-case-question", "concurrent-writes-after-failed-opens", "failed-opens-from-several-goroutines", "no-failed-opens-before", "rule-with-linefeed", "long-line>4096", "with-ip", "without-ip")
 	st.Finish(tt)
 
 	dir := tt.TempDir()
 	var caseNo atomic.Int64
 
 	rapid.Check(tt, func(t *rapid.T) {
-		path := filepath.Join(dir, fmt.Sprintf("ql-%d.jsonl", caseNo.Add(1)))
-		defer func() { _ = os.Remove(path) }()
+		// The log lives in a directory of its own, so that it can be made
+		// unreachable for a moment.
+		logDir := filepath.Join(dir, fmt.Sprintf("ql-%d", caseNo.Add(1)))
+		if err := os.Mkdir(logDir, 0o700); err != nil {
+			t.Fatalf("harness: %v", err)
+		}
+
+		path := filepath.Join(logDir, "ql.jsonl")
+		defer func() { _ = os.RemoveAll(logDir) }()
 
 		l := querylog.NewFileSystem(&querylog.FileSystemConfig{
 			Logger:   slogutil.NewDiscardLogger(),
@@ -204,6 +211,60 @@ func vc15Concurrent(tt *testing.T, part string, perWriterMax int) {
 					classes["without-ip"] = true
 				}
 			}
+		}
+
+		// Before the concurrent phase, in most cases: some writes that fail at
+		// opening the file (its directory is renamed away, as an external
+		// rotation or a full / read-only volume would do), from one or several
+		// goroutines.  Their entries are lost and must not appear; what they
+		// leave behind in the writer must not disturb the later writes.
+		if rapid.IntRange(0, 2).Draw(t, "failedOpens") > 0 {
+			k := rapid.IntRange(1, 12).Draw(t, "failedOpensN")
+			g := rapid.IntRange(1, 3).Draw(t, "failedOpensGoroutines")
+			var lost []*querylog.Entry
+			for i := 0; i < k; i++ {
+				e, _, _ := vc15DrawEntry(t, fmt.Sprintf("lost%d", i))
+				lost = append(lost, e)
+			}
+
+			away := logDir + ".away"
+			if err := os.Rename(logDir, away); err != nil {
+				t.Fatalf("harness: %v", err)
+			}
+
+			var fwg sync.WaitGroup
+			succeeded := make([]bool, k)
+			for gi := 0; gi < g; gi++ {
+				fwg.Add(1)
+				go func(gi int) {
+					defer fwg.Done()
+					for i := gi; i < k; i += g {
+						succeeded[i] = l.Write(context.Background(), lost[i]) == nil
+					}
+				}(gi)
+			}
+
+			fwg.Wait()
+			if err := os.Rename(away, logDir); err != nil {
+				t.Fatalf("harness: %v", err)
+			}
+
+			for i, ok := range succeeded {
+				if ok {
+					t.Fatalf("harness: write %d succeeded although the directory of the log was away", i)
+				}
+			}
+
+			if _, err := os.Stat(path); err == nil {
+				t.Fatalf("harness: the log file exists after the failed writes")
+			}
+
+			classes["concurrent-writes-after-failed-opens"] = true
+			if g > 1 {
+				classes["failed-opens-from-several-goroutines"] = true
+			}
+		} else {
+			classes["no-failed-opens-before"] = true
 		}
 
 		// Start barrier, and a measure of how many writers were between the
